@@ -10,8 +10,11 @@ if ! "$VERIF_ROOT/scripts/build.sh" inst >"$VERIF_ROOT/.work/build-$id.log" 2>&1
   exit 2
 fi
 case "$id" in
-  C10|C11)
-    # these checks also run the un-instrumented / race-enabled builds of the same harness
+  C10)
+    # this check also runs the un-instrumented build of the same harness in fresh processes
     "$VERIF_ROOT/scripts/build.sh" plain >>"$VERIF_ROOT/.work/build-$id.log" 2>&1 || { cat "$VERIF_ROOT/.work/build-$id.log" >&2; echo "BUILD-FAILED property=$id" >&2; exit 2; } ;;
+  C11)
+    # this check also runs the race-enabled build of the same harness bodies
+    "$VERIF_ROOT/scripts/build.sh" race >>"$VERIF_ROOT/.work/build-$id.log" 2>&1 || { cat "$VERIF_ROOT/.work/build-$id.log" >&2; echo "BUILD-FAILED property=$id" >&2; exit 2; } ;;
 esac
 exec "$VERIF_ROOT/bin/mc" check "$id" --tier "$tier" "$@"
